@@ -124,3 +124,27 @@ def run(chk, repo):
     ok = len(rec) == 1 and any('nodes.data.append(series)' in norm_stmt(s) for s in ast.walk(rec[0]) if isinstance(s, ast.Expr))
     chk.ob('C01.d', 'a series is recorded only at a real cleavage boundary (not after a c-pop-collapsed node)', repo.loc(fm, rec[0]) if rec else fm.where, ok,
            'series recording no longer tests cpop_collapsed', key=fm.qual + '::record-guard', fn=fm.qual)
+
+    # ------------------------------------------------------------------ e, f
+    from rules.C03 import sec_variant_filter
+    sec_variant_filter(chk, repo, 'C01.e')
+    chk.rule('C01.f', 'split_node: end-of-node flags move to the right half (transferred and cleared on the left)', 2)
+    sn = repo.func('svgraph.PVGNode:PVGNode.split_node')
+    chk.uses(sn)
+    ctor = [c for c in G.find_calls(sn.node, 'PVGNode')]
+    for flag in ('truncated', 'cpop_collapsed'):
+        passed = bool(ctor) and kwarg(ctor[0], flag) is not None and unparse(kwarg(ctor[0], flag)) == f"self.{flag}"
+        from sa.cfg import CFG as _CFG
+        scfg = _CFG(sn.node)
+        # on every path to the return, self.<flag> is assigned after the constructor (cleared, or set by the pop-collapse branch)
+        bad = None
+        for pth in scfg.paths(scfg.entry, max_paths=20000):
+            if pth.end_kind() != 'return':
+                continue
+            ids = [i for i, n_ in enumerate(pth.nodes()) if n_.kind == 'stmt' and any(x is ctor[0] for x in ast.walk(n_.ast))]
+            assigns = [i for i, n_ in enumerate(pth.nodes()) if n_.kind == 'stmt' and isinstance(n_.ast, ast.Assign) and unparse(n_.ast.targets[0]) == f"self.{flag}"]
+            if not ids or not any(a > ids[0] for a in assigns):
+                bad = bad or pth
+        chk.ob('C01.f', f"split_node: right half inherits {flag}; left half's {flag} is re-assigned on every path", sn.where, passed and bad is None,
+               f"after split_node the left half keeps {flag} of the unsplit node: the flag describes the END of the node "
+               "(e.g. a truncated 3' end), so every upstream piece would wrongly carry it and its peptides are never called", key=sn.qual + f'::{flag}', fn=sn.qual)
